@@ -193,7 +193,7 @@ def corpus():
 
 def shards(tier, seed):
     n, k = (150, 4) if tier == "quick" else (900, 16)
-    return [{"n": n, "seed": seed * 1000 + i} for i in range(k)] + [{"what": "empty"}]
+    return [{"n": n, "seed": seed * 1000 + i} for i in range(k)] + [{"what": "empty"}, {"what": "loops"}]
 
 
 def empty_cases():
@@ -202,7 +202,20 @@ def empty_cases():
         yield {"kind": "empty", "text": t, "sched": [[c] for c in calls] + [[a, b] for a in calls for b in calls]}
 
 
+def loop_sched_cases():
+    """Programs whose control flow returns to where it is (taken BRZ onto itself, two-instruction loops) under fixed
+    schedules: whole steps in a row, single cycles in a row, mixtures."""
+    for c in c06.loop_cases():
+        if c["drive"] != "step":
+            continue
+        c = {k: v for k, v in c.items() if k != "drive"}
+        yield dict(c, via_text=False, sched=[["step"] * 6, ["single"] * 9, ["step", "first", "second", "step", "step", "single", "single", "step"],
+                                             ["first", "second", "first", "second", "step", "step"]])
+
+
 def run_shard(item, stats):
+    if item.get("what") == "loops":
+        return core.run_cases(loop_sched_cases(), check, stats, core.known_matcher(ID, globals().get("known_match")))
     if item.get("what") == "empty":
         return core.run_cases(empty_cases(), check, stats, core.known_matcher(ID, globals().get("known_match")))
     core.hyp_search(case_strategy(), check, stats, item["n"], item["seed"], core.known_matcher(ID, globals().get("known_match")))
